@@ -15,11 +15,8 @@ def run(ctx):
     engine_corr.campaign(ctx, {"C07"})
     planlevel.plan_campaign(ctx, {"C07"}, n_quick=60, n_thorough=1000)
     cycles(ctx)
-    try:
-        import topo_corr
-        topo_corr.run_topo(ctx)
-    except ImportError:
-        ctx.notes["kahn_correspondence"] = "not yet integrated"
+    import topo_corr
+    topo_corr.run_topo(ctx)         # real topological_sort / all_ancestors / predecessor_count vs Base/Topo.v
 
 
 def cycles(ctx):
